@@ -49,6 +49,13 @@ Theorem C02_current_msg_server_writes_nonce :
   post_nonce_call current_cfg = true /\ post_nonce_create current_cfg = true /\ nonce_reset current_cfg = true.
 Proof. vm_compute. repeat split; reflexivity. Qed.
 
+(** Per TxData implementation of the current tree (facts tx_price_facts): EffectiveFeeWei — what the ante handler
+    deducts — and EffectiveGasPriceWeiPerGas — what the msg server refunds at — both floor the named price at the base
+    fee, for legacy, access-list and dynamic-fee transactions alike. *)
+Theorem C02_current_prices_floored_per_tx_type :
+  forallb (fun ty => fee_floor current_cfg ty && refund_floor current_cfg ty) [TLegacy; TAccess; TDynamic] = true.
+Proof. vm_compute. reflexivity. Qed.
+
 Theorem C02_nonce_consumed_once_on_current_tree :
   forall (w : world) (s : st) (x : tx),
     route_tx current_cfg (t_ext x) = RouteEVM ->
